@@ -339,6 +339,9 @@ class Exec:
             if ty == "tz":
                 st.locals[p] = Opaque("tz", id=z3.Int(uid("zone")))
                 continue
+            if ty == "file":
+                st.locals[p] = Opaque("file", path=Opaque("argument", name=p))
+                continue
             if isinstance(ty, str) and ty.startswith("obj["):
                 target = ty[4:-1]
                 st.locals[p] = c.make_self(self, st, facts, c.registry.class_fields(target), target, p)
@@ -1509,6 +1512,8 @@ class Exec:
         if isinstance(v, SetV):
             return self.set_elems(v, st)
         if isinstance(v, Opaque) and v.kind == "cursor" and v.get("rows") is not None:
+            return v.get("rows")
+        if isinstance(v, Opaque) and v.kind == "csvreader":
             return v.get("rows")
         raise EngineError("%s: cannot iterate over %r" % (self.fnname, v))
 
